@@ -367,14 +367,26 @@ class GitStore(Store):
             except NotImplementedError:
                 # This file type doesn't support UIDs
                 uid = None
+            if name in self._fname_to_uid:
+                # The file changed; forget the UID it used to carry.
+                self._forget_uid(name, self._fname_to_uid[name][1])
             self._fname_to_uid[name] = (etag, uid)
             if uid is not None:
                 self._uid_to_fname[uid] = (name, etag)
         for name in removed:
             (unused_etag, uid) = self._fname_to_uid[name]
-            if uid is not None:
-                del self._uid_to_fname[uid]
+            self._forget_uid(name, uid)
             del self._fname_to_uid[name]
+
+    def _forget_uid(self, name, uid):
+        if uid is None:
+            return
+        try:
+            (existing_name, _) = self._uid_to_fname[uid]
+        except KeyError:
+            return
+        if existing_name == name:
+            del self._uid_to_fname[uid]
 
     def _iterblobs(self, ctag=None):
         raise NotImplementedError(self._iterblobs)
